@@ -33,6 +33,7 @@ class Executor(Engine, ExprMixin, StmtMixin, CallMixin):
         self.spec_globals = {}
         self.call_log = []
         self.folds = {}
+        self.events_locals = {}
 
     # ------------------------------------------------------------------ spec evaluation
     def spec_frame(self, c, old_state):
@@ -64,6 +65,38 @@ class Executor(Engine, ExprMixin, StmtMixin, CallMixin):
             self.check_schema_stores = saved[0]
             del self.obligations[n_obl:]
         return s2.guard, truth
+
+    def calls_satisfy(self, st, qual, expr, c, count=False):
+        """all_calls(qual, expr): every recorded call of the (assumed-contract) callee `qual` on the path satisfies
+        expr (an expression over the callee's parameter names and the current function's parameters)."""
+        conj = []
+        for ev in self.events:
+            if ev.qual != qual and not ev.qual.endswith('.' + qual):
+                continue
+            env = dict(self.top_env)
+            env.update(self.events_locals)
+            env.update({'arg_' + k: v for k, v in ev.env.items()})
+            s2 = State(dict(env), dict(st.heap), st.guard)
+            fr = self.spec_frame(c, self.top_pre)
+            self.frames.append(fr)
+            try:
+                v = self.eval(s2, parse_expr(expr))
+                t = self.truthy(s2, v)
+            finally:
+                self.frames.pop()
+            conj.append(z3.Implies(ev.guard, t))
+        return And(*conj) if conj else z3.BoolVal(True)
+
+    def calls_ordered(self, first, second):
+        """every recorded call of `first` precedes (in program order) every call of `second` on the same path"""
+        conj = []
+        for i, a in enumerate(self.events):
+            if not (a.qual == second or a.qual.endswith('.' + second)):
+                continue
+            for b in self.events[i + 1:]:
+                if b.qual == first or b.qual.endswith('.' + first):
+                    conj.append(Not(And(a.guard, b.guard)))
+        return And(*conj) if conj else z3.BoolVal(True)
 
     def let_env(self, c, env, pre):
         """`let` names are macros evaluated in the pre-state."""
@@ -187,7 +220,7 @@ class Executor(Engine, ExprMixin, StmtMixin, CallMixin):
             wd, truth = self.eval_spec(st, r, c, env, pre)
             self.oblige(st, 'pre:%s:%d@%d' % (c.qual.split('.')[-1], i, line), And(wd, truth),
                         'precondition of %s: %s' % (c.qual, r))
-        if c.events:
+        if True:
             self.events.append(Event(st.guard, c.qual, dict(env), line))
         havocs = self.havoc(st, c, env, c.modifies)
         call_rec = {'qual': c.qual, 'line': line, 'guard': st.guard, 'havocs': havocs, 'result': None, 'raises': []}
